@@ -7,24 +7,27 @@ def run(ctx):
     znh = common.build_harness(ctx)
     rnd = random.Random(ctx.seed)
     quick = ctx.tier == "quick"
-    cfgs = ["rt3", "rt2all", "dec4", "dec3all", "dec5", "uplus", "uplus6"] if quick else ["rt3", "rt2all", "rt5", "dec4", "dec3all", "dec5", "dec6", "uplus", "uplus6"]
+    cfgs = ["rt3", "rt2all", "rtq5", "dec4", "dec3all", "dec5", "uplus", "uplus6"] if quick else ["rt3", "rt2all", "rtq5", "rt5", "dec4", "dec3all", "dec5", "dec6", "uplus", "uplus6"]
     vecs = []
     def one(c):
         return common.tlc(ctx, "ZnStr", "MC_ZnStr_%s.cfg" % c, workers=5, timeout=3000)
     with cf.ThreadPoolExecutor(max_workers=3) as ex:
-        for txt, info in ex.map(one, cfgs):
-            vecs += common.vectors(txt, "str")
+        for cname, (txt, info) in zip(cfgs, ex.map(one, cfgs)):
+            vs_ = common.vectors(txt, "str")
+            for v_ in vs_: v_["_cfg"] = cname
+            vecs += vs_
     if len(vecs) < 300000:
         raise common.NoVerdict("too few vectors: %d" % len(vecs))
     if quick:
-        rt = [v for v in vecs if v["mode"] == "roundtrip"]
+        rtq = [v for v in vecs if v["mode"] == "roundtrip" and v.get("_cfg") == "rtq5" and len(v["lit"]) >= 6]      # nested quote pairs between ordinary characters: all replayed
+        rt = [v for v in vecs if v["mode"] == "roundtrip" and not (v.get("_cfg") == "rtq5" and len(v["lit"]) >= 6)]
         dec = [v for v in vecs if v["mode"] == "decode"]
         up = [v for v in vecs if v["mode"] == "uplus"]
         # decode direction: every body with at least two back-ticks (a complete back-tick sequence) is replayed, the rest sampled
         dec_bt = [v for v in dec if v["lit"].count("bt") >= 2]
         dec_other = [v for v in dec if v["lit"].count("bt") < 2]
         log("[C13] decode vectors: %d with a back-tick sequence (all replayed), %d others (sampled)" % (len(dec_bt), len(dec_other)))
-        vecs = rnd.sample(rt, 80000) + dec_bt + rnd.sample(dec_other, min(len(dec_other), 40000)) + rnd.sample(up, 40000)
+        vecs = rnd.sample(rt, 80000) + rtq + dec_bt + rnd.sample(dec_other, min(len(dec_other), 40000)) + rnd.sample(up, 40000)
     cases = []
     for i, v in enumerate(vecs):
         e2e = v["lit"][0] in ("ql1", "ql2") and v["ok"] and v["stop"] == len(v["lit"]) and (v["mode"] == "roundtrip" or i % 5 == 0)
